@@ -2,6 +2,7 @@
 
 All random choices come from the rng passed in.  The generator keeps an abstract tree of the
 target's view only to bias generation towards valid calls; it is never used as an oracle."""
+import random
 import re
 import vfx
 
@@ -440,3 +441,138 @@ def err_free(line):
     if line.startswith("ok"):
         return strip_times(line)
     return outcome_class(line)
+
+
+# ---------------------------------------------------------------------------------- directed corpora
+
+TARGET_KINDS = [("file", "g"), ("emptydir", "m"), ("dir", "d"), ("missing", "zz"), ("noparent", "nn/zz"),
+                ("belowfile", "g/zz"), ("root", ""), ("deepfile", "d/f"), ("deepdir", "d/e")]
+ONE_PATH_OPS = ["exists", "metadata", "isfile", "isdir", "readdir", "createdir", "createdirall", "createfile", "appendfile",
+                "openfile", "removefile", "removedir", "removedirall", "readtostring", "setmtime", "walkdir", "probe"]
+TWO_PATH_OPS = ["copyfile", "movefile", "copydir", "movedir"]
+
+
+def _matrix_setup(c, t):
+    c.op("createdirall", vfx.ps(t, "d/e"))
+    write_file(c, t, "d/f", b"deep file")
+    write_file(c, t, "d/e/h", b"deeper")
+    write_file(c, t, "g", b"top file")
+    c.op("createdir", vfx.ps(t, "m"))
+    c.op("snap", t)
+
+
+def _ps(t, relpath):
+    return vfx.ps(t, relpath) if relpath else "%d:" % t
+
+
+def matrix_cases(prefix, kinds, rng=None, two_path=True, c01_domain=False, root_removal=False):
+    """every operation of the path API on every kind of target (a file, an empty / a non-empty directory, a name
+    missing from an existing directory, below a missing directory, below a file, the root, deeper entries): the
+    calls of the wrong type for their target that random histories rarely produce"""
+    rng = rng or random.Random(7)
+    cases = []
+    for kind in kinds:
+        for opk in ONE_PATH_OPS:
+            for tk, tp in TARGET_KINDS:
+                if not root_removal and tk == "root" and opk in ("removedir", "removedirall"):
+                    continue      # removing the root itself is outside every property but C13
+                if c01_domain and tk == "root" and opk in ("removedir", "removedirall", "removefile", "createfile", "appendfile"):
+                    continue      # C01 leaves removing / overwriting the root unspecified
+                c = vfx.Case("%s_mx_%s_%s_%s" % (prefix, kind, opk, tk))
+                g = build_config(c, kind, rng)
+                c.cfg = g
+                t = g.target
+                _matrix_setup(c, t)
+                c.first_snap = c.nops - 1
+                if opk in ("createfile", "appendfile"):
+                    h = c.op(opk, _ps(t, tp)); c.op("hwrite", h, vfx.hexs(b"NEW")); c.op("hdrop", h)
+                elif opk == "openfile":
+                    h = c.op(opk, _ps(t, tp)); c.op("hreadtoend", h); c.op("hdrop", h)
+                elif opk == "setmtime":
+                    c.op(opk, _ps(t, tp), TIMES[1])
+                else:
+                    c.op(opk, _ps(t, tp))
+                c.op("snap", t)
+                for w in g.watch:
+                    c.op("snap", w)
+                cases.append(c)
+        if not two_path:
+            continue
+        for opk in TWO_PATH_OPS:
+            for sk, sp in TARGET_KINDS:
+                for dk, dp in [("missing", "zz"), ("file", "g"), ("emptydir", "m"), ("belowfile", "g/zz"), ("noparent", "nn/zz"),
+                               ("inside", "d/e/in"), ("root", "")]:
+                    if opk in ("copydir", "movedir") and (sp == "" or dp.startswith(sp + "/")):
+                        continue      # a directory copied into itself grows without bound (in the code as in cp -r)
+                    if c01_domain:
+                        # unspecified by C01: transfers whose source has the wrong type, into the source's own subtree
+                        # (the source itself included), or that move the root
+                        src_is_dir = sk in ("emptydir", "dir", "root", "deepdir")
+                        src_is_file = sk in ("file", "deepfile")
+                        if opk in ("copyfile", "movefile") and src_is_dir:
+                            continue
+                        if opk in ("copydir", "movedir") and src_is_file:
+                            continue
+                        if dp == sp or (sp and dp.startswith(sp + "/")) or sp == "":
+                            continue
+                    c = vfx.Case("%s_mx_%s_%s_%s_%s" % (prefix, kind, opk, sk, dk))
+                    g = build_config(c, kind, rng)
+                    c.cfg = g
+                    t = g.target
+                    _matrix_setup(c, t)
+                    c.first_snap = c.nops - 1
+                    c.op(opk, _ps(t, sp), _ps(t, dp))
+                    c.op("snap", t)
+                    for w in g.watch:
+                        c.op("snap", w)
+                    cases.append(c)
+    return cases
+
+
+def stale_handle_cases(prefix, kinds, rng=None):
+    """write and read handles that outlive what they were opened on: the path is removed, re-created as a file or as a
+    directory (with children), its parent is removed - and only then the handle is written, flushed, dropped or read"""
+    rng = rng or random.Random(11)
+    cases = []
+    for kind in kinds:
+        for opener in ("createfile", "appendfile", "openfile"):
+            for between in ("remove", "remove_recreate_file", "remove_recreate_dir", "remove_parent", "overwrite"):
+                for finish in ("drop", "flush_drop"):
+                    if opener == "openfile" and finish == "flush_drop":
+                        continue
+                    c = vfx.Case("%s_stale_%s_%s_%s_%s" % (prefix, kind, opener, between, finish))
+                    g = build_config(c, kind, rng)
+                    c.cfg = g
+                    t = g.target
+                    c.op("createdir", vfx.ps(t, "a"))
+                    write_file(c, t, "a/x", b"original")
+                    c.op("snap", t)
+                    c.first_snap = c.nops - 1
+                    h = c.op(opener, vfx.ps(t, "a/x"))
+                    if opener != "openfile":
+                        c.op("hwrite", h, vfx.hexs(b"early"))
+                    if between == "remove":
+                        c.op("removefile", vfx.ps(t, "a/x"))
+                    elif between == "remove_recreate_file":
+                        c.op("removefile", vfx.ps(t, "a/x")); write_file(c, t, "a/x", b"second life")
+                    elif between == "remove_recreate_dir":
+                        c.op("removefile", vfx.ps(t, "a/x")); c.op("createdir", vfx.ps(t, "a/x"))
+                        write_file(c, t, "a/x/c", b"child")
+                    elif between == "remove_parent":
+                        c.op("removedirall", vfx.ps(t, "a"))
+                    else:
+                        write_file(c, t, "a/x", b"overwritten by another handle")
+                    c.op("snap", t)
+                    if opener == "openfile":
+                        c.op("hread", h, 4); c.op("hreadtoend", h)
+                    else:
+                        c.op("hwrite", h, vfx.hexs(b" late"))
+                        if finish == "flush_drop":
+                            c.op("hflush", h); c.op("snap", t)
+                    c.op("hdrop", h)
+                    c.op("snap", t)
+                    c.op("probe", vfx.ps(t, "a/x")); c.op("probe", vfx.ps(t, "a/x/c")); c.op("probe", vfx.ps(t, "a"))
+                    for w in g.watch:
+                        c.op("snap", w)
+                    cases.append(c)
+    return cases
